@@ -169,6 +169,7 @@ func vSymRecovery(e *vEnv, h uint32) *vRecovery {
 		// nobody can forge the receiver's own payloads (DESIGN §4); genuine own payloads
 		// coming back are the re-delivery case of C11
 		vAssume(int(p.vidx) != e.my || e.watchFlag)
+		vSplitSender(p, vParam("rsplit"), e.n)
 		if t == PrepareRequestType {
 			p.txs = vSymTxs(tag, vParam("mntx"))
 		}
@@ -243,6 +244,7 @@ func H_step() {
 		// own payloads are not fed back and cannot be forged by others (DESIGN §4)
 		// (a node restarted as watch-only under its old key does see its earlier payloads again)
 		vAssume(int(msg.vidx) != d.MyIndex || e.watchFlag)
+		vSplitSender(msg, vParam("split"), e.n)
 		switch cls {
 		case 1: // validator index outside the current list
 			vAssume(int(msg.vidx) >= len(d.Validators))
@@ -397,5 +399,18 @@ func vpStepObligations(e *vEnv, pre *vSnap, msg *vPayload) {
 	}
 	if e.want("C10") && !d.Context.WatchOnly() && !d.blockProcessed {
 		vAssert("C10.O1.armed", e.armed && e.th == d.BlockIndex && e.tv == d.ViewNumber)
+	}
+}
+
+// vSplitSender: case split of the sender index across jobs (parameter value 0 = unconstrained,
+// k+1 = validator k, n+1 = any index outside the list); the union of the jobs is the whole domain.
+func vSplitSender(p *vPayload, split, n int) {
+	if split == 0 {
+		return
+	}
+	if split <= n {
+		vAssume(int(p.vidx) == split-1)
+	} else {
+		vAssume(int(p.vidx) >= n)
 	}
 }
